@@ -3,6 +3,7 @@ package report
 import (
 	"testing"
 	"testing/synctest"
+	"time"
 )
 
 // Bubble returns a Wrap function that runs each execution inside a
@@ -21,6 +22,11 @@ func Bubble(t *testing.T) func(fn func()) {
 		}
 	}
 }
+
+// DrainTimers is an OnCut function for bubbles: fake time stops when the
+// bubble's main goroutine exits, so goroutines the code under test left
+// sleeping on a short timer are given time to run out first.
+func DrainTimers() { time.Sleep(10 * time.Second) }
 
 // Settle waits until every goroutine of the bubble is durably blocked.
 func Settle() { synctest.Wait() }
